@@ -153,6 +153,26 @@ def build_call(r, build):
     if kind == 'ns':        # a SimpleNamespace with these attributes (no positional part)
         import types
         return types.SimpleNamespace(**{k: build(v) for k, v in kwargs})
+    if kind in STD_CALL_KINDS:
+        import collections
+        import functools
+        import types
+        a = [build(x) for x in args]
+        kw = [(k, build(v)) for k, v in kwargs]
+        if kind == 'deque':
+            return collections.deque(a)
+        if kind == 'odict':
+            return collections.OrderedDict(kw)
+        if kind == 'ddict':
+            return collections.defaultdict(list, kw)
+        if kind == 'mproxy':
+            return types.MappingProxyType(dict(kw))
+        if kind == 'chainmap':
+            return collections.ChainMap(dict(kw), {'zz': 0})
+        if kind == 'exc':
+            return ValueError(*a)
+        if kind == 'partial':
+            return functools.partial(free_function, *a, **dict(kw))
     if kind == 'nt':        # a namedtuple with two fields: values from the keyword part, None where missing
         vals = {k: build(v) for k, v in kwargs}
         return PairNT(vals.get('a'), vals.get('b'))
@@ -160,6 +180,8 @@ def build_call(r, build):
     return cls(*[build(a) for a in args], **{k: build(v) for k, v in kwargs})
 
 
+# standard-library containers built from the same recipe shape: positional part -> elements / arguments, keyword part -> entries
+STD_CALL_KINDS = ('deque', 'odict', 'ddict', 'mproxy', 'chainmap', 'exc', 'partial')
 import collections as _coll
 PairNT = _coll.namedtuple('PairNT', 'a b')
 PairNT.__module__ = __name__
